@@ -53,7 +53,7 @@ theorem xcube_ignores_bposd_buffers (solve : WSolver W) (S : BpSolver) (castEv :
     (d.decode solve S castEv order st s).2.val = (d.decode solve S castEv order st' s).2.val := by
   rw [(decode_eq_pure solve S castEv order d st h s).1, (decode_eq_pure solve S castEv order d st' h' s).1]
 
-/-- a call whose matching part raises (e.g. the `KeyError` of finding D16) does not touch the
+/-- a call whose matching part raises (e.g. the `KeyError` of `XCubeDec.old`, former finding D16) does not touch the
     BP-OSD decoder: the object is exactly as before the call -/
 theorem xcube_raising_call_leaves_state (solve : WSolver W) (S : BpSolver)
     (castEv : Event Rat → Event W) (order : List Int → List Int) (d : XCubeDec W) (st : BpSt)
